@@ -1,0 +1,173 @@
+//go:build verif
+
+package dicescript
+
+// Verification hooks (build tag "verif"): a read-only view of compiled code and a
+// deterministic work meter. Nothing here is compiled into normal builds.
+
+import "sync/atomic"
+
+// VerifOp is one compiled instruction: its mnemonic, raw opcode and operand.
+type VerifOp struct {
+	Op  string
+	T   uint8
+	Arg any
+}
+
+// VerifUnpatched is the operand a jmp/jne carries until the compiler patches it,
+// but only while VerifMarkUnpatched is on (parse-only checks).
+const VerifUnpatched = IntType(-1 << 62)
+
+// VerifMarkUnpatched makes AddOp seed jump operands with VerifUnpatched instead of 0.
+var VerifMarkUnpatched atomic.Bool
+
+func verifJumpSeed(val any) any {
+	if VerifMarkUnpatched.Load() {
+		return VerifUnpatched
+	}
+	return val
+}
+
+func verifOps(code []ByteCode, n int) []VerifOp {
+	if n > len(code) {
+		n = len(code)
+	}
+	out := make([]VerifOp, 0, n)
+	for i := 0; i < n; i++ {
+		c := code[i]
+		out = append(out, VerifOp{Op: verifOpName(&c), T: uint8(c.T), Arg: c.Value})
+	}
+	return out
+}
+
+func verifOpName(c *ByteCode) string {
+	switch c.T {
+	case typePushIntNumber:
+		return "push.int"
+	case typePushFloatNumber:
+		return "push.flt"
+	case typePushString:
+		return "push.str"
+	case typePushArray:
+		return "push.arr"
+	case typePushDict:
+		return "push.dict"
+	case typePushComputed:
+		return "push.computed"
+	case typePushFunction:
+		return "push.func"
+	case typeInvoke:
+		return "invoke"
+	case typeInvokeSelf:
+		return "invoke.self"
+	case typeAttrSet:
+		return "attr.set"
+	case typeAttrGet:
+		return "attr.get"
+	case typeLoadName:
+		return "ld"
+	case typeLoadNameWithDetail:
+		return "ld.d"
+	case typeLoadNameRaw:
+		return "ld.raw"
+	case typeLoadFormatString:
+		return "ld.fs"
+	case typeStoreName:
+		return "store"
+	case typeStoreNameGlobal:
+		return "store.global"
+	case typeStoreNameLocal:
+		return "store.local"
+	case typeDetailMark:
+		return "mark.detail"
+	case typeJmp:
+		return "jmp"
+	case typeJe:
+		return "je"
+	case typeJeDup:
+		return "je.dup"
+	case typeJne:
+		return "jne"
+	case typePopN:
+		return "popn"
+	case typeStModify:
+		return "st.mod"
+	case typeCustomDice:
+		return "dice.custom"
+	}
+	if s := c.CodeString(); s != "" {
+		return s
+	}
+	return "@raw"
+}
+
+// VerifCode returns a copy of the program compiled by the last Parse.
+func (ctx *Context) VerifCode() []VerifOp {
+	return verifOps(ctx.code, ctx.codeIndex)
+}
+
+// VerifBodyCode returns the precompiled body of a function or computed value
+// (ok is false when the value has no precompiled code).
+func VerifBodyCode(v *VMValue) ([]VerifOp, bool) {
+	if v == nil {
+		return nil, false
+	}
+	switch v.TypeId {
+	case VMTypeFunction:
+		if fd, ok := v.Value.(*FunctionData); ok && fd != nil && fd.code != nil {
+			return verifOps(fd.code, fd.codeIndex), true
+		}
+	case VMTypeComputedValue:
+		if cd, ok := v.Value.(*ComputedData); ok && cd != nil && cd.code != nil {
+			return verifOps(cd.code, cd.codeIndex), true
+		}
+	}
+	return nil, false
+}
+
+// Work meter: instructions dispatched and dice rolled since the last reset.
+var (
+	VerifOpsDone   atomic.Int64
+	VerifRollsDone atomic.Int64
+	VerifCeiling   atomic.Int64 // 0 = none; exceeded => panic(VerifCeilingHit{})
+	verifYieldFn   atomic.Pointer[func()]
+)
+
+// VerifCeilingHit is the panic value raised when the armed ceiling is exceeded.
+type VerifCeilingHit struct{ Ops, Rolls int64 }
+
+// VerifMeterReset zeroes the counters and arms the ceiling (0 disarms).
+func VerifMeterReset(ceiling int64) {
+	VerifOpsDone.Store(0)
+	VerifRollsDone.Store(0)
+	VerifCeiling.Store(ceiling)
+}
+
+// VerifSetYield installs a callback invoked at every metered point (nil removes it).
+func VerifSetYield(fn func()) {
+	if fn == nil {
+		verifYieldFn.Store(nil)
+		return
+	}
+	verifYieldFn.Store(&fn)
+}
+
+const (
+	verifTickOp   = 0
+	verifTickRoll = 1
+)
+
+func verifTick(kind int) {
+	var ops, rolls int64
+	if kind == verifTickOp {
+		ops, rolls = VerifOpsDone.Add(1), VerifRollsDone.Load()
+	} else {
+		ops, rolls = VerifOpsDone.Load(), VerifRollsDone.Add(1)
+	}
+	if c := VerifCeiling.Load(); c > 0 && ops+rolls > c {
+		panic(VerifCeilingHit{Ops: ops, Rolls: rolls})
+	}
+	if fn := verifYieldFn.Load(); fn != nil {
+		(*fn)()
+	}
+}
